@@ -6,18 +6,121 @@ import os
 
 HERE = os.path.dirname(os.path.abspath(__file__))
 
-TECH = "symbolic execution of the real optyx code over a z3 numeric domain (symx); z3 validity queries, cvc5 second opinion"
+TECH = "symbolic execution of the real optyx code over a z3 numeric domain (symx); z3 validity queries (equalities first pass through a denominator-clearing normal form whose side conditions z3 decides), cvc5 second opinion on unknown"
 
 # id -> (category, text, note, design_ref, technique)
+def C(cat, text, note, ref, tech=TECH):
+    return (cat, text, note, ref, tech)
+
+
+COMMON_NOTE = ("Holds within the stated recipe / size / history bounds only. Exact-real arithmetic (floats are their exact rationals; no rounding, "
+               "overflow, signed zeros). Elementary functions are uninterpreted functions with instantiated identities. Every solver counterexample is "
+               "replayed on plain floats against the real code before it is reported. ")
+
 CLAIMED = {
-    "C02": ("model_checking",
-            "Bounded symbolic model checking: gradient() of the real code is executed on every recipe of the bounded family "
-            "(depth<=2/3, all 19 unary ops, all vector/matrix reductions) for every wrt variable; z3 proves equality with a "
-            "dual-number oracle for ALL points and ALL symbolic constants on every explored path. A wrong rule yields a model "
-            "that is replayed on floats before being reported.",
-            "Holds within the recipe bounds only; exact-real arithmetic (no rounding); elementary functions are uninterpreted "
-            "functions with instantiated identities; evaluate() is the observation of the derivative tree.",
-            "DESIGN.md 2/C02", TECH + "; dual-number derivative oracle"),
+    "C01": C("model_checking",
+             "Bounded symbolic model checking of compile_expression / compile_to_dict_function / CompiledExpression.value / the cached second compile / the deep-tree "
+             "builder (threshold forced from outside) and evaluate(): for every recipe of the bounded family and every permutation / superset of its variables the real "
+             "code runs on a symbolic point and z3 proves the result equal to the reference formula for ALL points, constants and parameter values. Totality: every "
+             "Expression subclass found by introspection is reached.",
+             COMMON_NOTE, "DESIGN.md 2/C01"),
+    "C02": C("model_checking",
+             "gradient() of the real code is executed on every recipe of the bounded family (depth<=2/3, all 19 unary ops, all vector/matrix reductions) for every wrt "
+             "variable (incl. one that does not occur); z3 proves equality with a dual-number oracle for ALL points and ALL symbolic constants on every explored path.",
+             COMMON_NOTE + "evaluate() is the observation of the derivative tree.", "DESIGN.md 2/C02", TECH + "; dual-number derivative oracle"),
+    "C03": C("model_checking",
+             "compile_jacobian, compile_gradient, CompiledExpression.gradient, compute_jacobian and every jacobian_row implementation are executed symbolically for expression "
+             "lists (m<=3) under every permutation / superset of the variables; z3 proves each entry equal to the dual-number derivative. The __name__ of the returned "
+             "closure is recorded as witness of the fast path taken.",
+             COMMON_NOTE, "DESIGN.md 2/C03", TECH + "; dual-number derivative oracle"),
+    "C04": C("model_checking",
+             "Soundness of every degree traversal (e.degree, compute_degree, recursive, iterative, bounded, is_linear, is_quadratic): a reported degree d is checked by a z3 "
+             "query for a point x and step h at which the order-(d+1) finite difference of the REFERENCE formula is non-zero (unsat = polynomial of degree <= d).",
+             COMMON_NOTE + "Sat answers may stem from uninterpreted functions and are therefore always replayed numerically.", "DESIGN.md 2/C04",
+             TECH + "; finite-difference encoding of polynomial degree"),
+    "C05": C("model_checking",
+             "The real LinearProgramExtractor runs on linear models written through 54 API forms with SYMBOLIC coefficients, constants, right-hand sides and bounds; z3 proves "
+             "for all x and all data that cost.x + constant equals the objective, every row reproduces the user's relation with its sense, columns are the reported variables "
+             "and bounds are the declared ones.",
+             COMMON_NOTE, "DESIGN.md 2/C05"),
+    "C06": C("model_checking",
+             "Problem.solve runs against nondeterministic solver stubs (arbitrary point, success flag and message; no feasibility promise); the explorer walks every branch of "
+             "the post-solve check, the SLSQP->trust-constr retry and both status mappings; on every path ending OPTIMAL z3 proves every user constraint within the code's "
+             "stated tolerance and all declared bounds.",
+             COMMON_NOTE + "Trusts that SciPy honours the stub contracts S4/S5 (x within passed bounds; linprog success => passed constraints hold). Path budget per (model, method).",
+             "DESIGN.md 2/C06", TECH + "; nondeterministic solver stubs"),
+    "C07": C("model_checking",
+             "Same exploration as C06 with fun tied to the passed callable / cost vector: on every path with values z3 proves objective_value == objective(values) in the "
+             "user's orientation incl. constants and parameters; keys(values) == problem variables; Solution[handle] retrieves the right positions for 24 vector / matrix view recipes.",
+             COMMON_NOTE + "Trusts result.fun == fun(result.x) (S4) and == c.x (S5).", "DESIGN.md 2/C07", TECH + "; nondeterministic solver stubs"),
+    "C08": C("model_checking",
+             "The optyx side of LP solving: for every linear model x orientation x LP method, z3 proves (symbolic data) that the instance handed to linprog has the user's "
+             "feasible set and cost direction, the requested method, that a repeated solve passes an equal instance, and that statuses 0/1/2/3/4 and the objective are mapped "
+             "back correctly. HiGHS itself is trusted (C++ behind FFI).",
+             COMMON_NOTE + "HiGHS is modelled as a function of its input honouring the linprog contract; 'same verdict on equivalent inputs' is trusted (validated on 264 concrete instances in the thorough tier only).",
+             "DESIGN.md 2/C08", TECH + "; recording / nondeterministic linprog stub"),
+    "C09": C("model_checking",
+             "The optyx side of NLP solving: what solve_scipy passes to scipy.optimize.minimize is recorded and z3 proves for all x and symbolic data: fun == +/-objective, "
+             "jac == grad fun and hess == hess fun (fun itself differentiated with dual numbers through the callable), constraint dicts non-negative/zero exactly on the user's "
+             "relation with matching jac, bounds declared and passed iff supported, x0 inside bounds, method as requested; converged and feasible replies map to OPTIMAL.",
+             COMMON_NOTE + "Convergence of SLSQP / trust-constr / L-BFGS-B (Fortran/C behind FFI) is outside the claim.", "DESIGN.md 2/C09", TECH + "; recording solver stub; dual numbers through the recorded callables"),
+    "C10": C("model_checking",
+             "Operand-kind x sense x shape grid (Python / NumPy scalars, 0-d arrays, variables, parameters, expressions, vectors, lists, arrays, matrices; reflected forms; .eq): "
+             "z3 proves violation / is_satisfied / one-constraint-per-element semantics for a symbolic point and symbolic right-hand values, and that the SciPy dicts are "
+             "non-negative exactly on the relation with jac == grad fun; mismatched shapes must raise.",
+             COMMON_NOTE + "One known finding (0-d array on the left of a comparison) is listed in known_findings.json.", "DESIGN.md 2/C10"),
+    "C11": C("model_checking",
+             "Every vector / matrix construction recipe (views, slices with steps and negative indices, transposes, symmetric sharing, elementwise operators with scalar / "
+             "array / list / vector / matrix on either side, reductions, quadratic forms, matrix-vector products) is evaluated by the real code on symbolic values and z3 "
+             "proves it equal to the same NumPy operation on object arrays; 376 shape-mismatch programs are enumerated and must raise.",
+             COMMON_NOTE, "DESIGN.md 2/C11", TECH + "; NumPy-on-object-arrays reference"),
+    "C12": C("model_checking",
+             "Exhaustive operation histories (length <= 3 / 4) over {set parameter to a FRESH symbolic value, evaluate, early-compiled call, fresh compile, early-compiled "
+             "Jacobian / Hessian, solve via 4 methods}: after every observation z3 proves equality with the reference formula at the CURRENT parameter values for all points "
+             "and all values ever set; a model with parameters must never reach linprog.",
+             COMMON_NOTE + "Solver reply fixed (non-branching).", "DESIGN.md 2/C12", TECH + "; history enumeration"),
+    "C13": C("model_checking",
+             "Exhaustive histories (length <= 4 / 5) over minimize / maximize / subject_to (single and list) / bound assignment with symbolic values / solve (LP and NLP "
+             "methods) / read: after every solve and read z3 proves the recorded solver arguments equal to those of a fresh Problem built from the current state, and "
+             "variables, linearity verdict and get_bounds() are compared.",
+             COMMON_NOTE + "Reference = a fresh Problem over the same expression and variable objects.", "DESIGN.md 2/C13", TECH + "; history enumeration"),
+    "C14": C("model_checking",
+             "Process-wide caches are discovered at run time; for 10 target models and every prefix of <= 2 / 3 name-colliding pool models (each compiled, differentiated, "
+             "classified, solved) z3 proves all observations on the target equal to those after cache_clear() of every cache, for all points and the values of every model; "
+             "cache overflow is driven concretely.",
+             COMMON_NOTE + "cache_clear() of all discovered caches is taken as equivalent to a fresh process.", "DESIGN.md 2/C14", TECH + "; history enumeration"),
+    "C15": C("model_checking",
+             "Both algorithms on every tree: the four _RECURSION_THRESHOLD attributes are set from outside to 0, huge and 1..6; for chains of 2..6 terms (all 19 unary "
+             "functions, 13 vector/matrix node kinds, parameters) over + - * / and **, left-deep / right-deep / balanced, z3 proves variables, degree, gradient, compiled "
+             "value and compiled gradient equal to the reference; genuinely deep chains (450 / 900 symbolic; 5000 / 20000 for gradient, degree, variables) run at the real "
+             "threshold with the default recursion limit.",
+             COMMON_NOTE, "DESIGN.md 2/C15"),
+    "C16": C("model_checking",
+             "Exhaustive case split over objective forms (every shortcut arm) x constraint forms, digit boundaries 9->10 and 99->100, tied names, 4 hash seeds: the variable "
+             "list must equal the names flowing into the reference formula (name-set run), in independently computed natural order, unique; z3 proves get_bounds() equal to "
+             "the declared symbolic bounds and decides dependence queries for any unlisted variable.",
+             COMMON_NOTE + "The set / order part has no real-valued inputs; the solver's contribution there is limited to bounds and dependence queries.", "DESIGN.md 2/C16",
+             TECH + "; exhaustive explorer enumeration"),
+    "C17": C("model_checking",
+             "compute_hessian and compile_hessian (diagonal shortcuts, upper-triangle mirroring) are executed symbolically for every permutation / superset of the variables; z3 "
+             "proves every entry equal to the nested-dual second derivative of the reference formula (hence symmetric).",
+             COMMON_NOTE, "DESIGN.md 2/C17", TECH + "; nested dual numbers"),
+    "C18": C("model_checking",
+             "Finite product fully enumerated: 14 declaration routes x {integer, binary} x LP/NLP x 8 methods x strict: strict raises IntegerVariableError listing exactly the "
+             "non-continuous variables with zero solver invocations; otherwise one warning naming exactly them and z3 proves the recorded solver arguments equal to the same "
+             "model with domains set to continuous; binaries carry [0,1] for symbolic declared bounds.",
+             COMMON_NOTE, "DESIGN.md 2/C18", TECH + "; exhaustive explorer enumeration"),
+    "C19": C("model_checking",
+             "Every derivative closure family is executed over XReal (extended reals with IEEE/NumPy special-value rules as z3 If-terms, validated against NumPy on every run) "
+             "with FINITE symbolic inputs; the sanitiser's input is recorded; z3 proves all outputs finite, finite raw entries unchanged, NaN->0, +-inf->+-1e16, and "
+             "vectorised == general path entrywise including singular points.",
+             COMMON_NOTE + "Overflow of finite operations and signed zeros are outside the model.", "DESIGN.md 2/C19", TECH + "; extended-real domain XReal"),
+    "C20": C("fault_enumeration",
+             "Full product of fault location (solver entry, k-th objective / gradient / constraint / Jacobian / Hessian callback, compile_hessian, compile_jacobian, "
+             "compile_expression, LP extraction, linprog) x exception class (incl. KeyboardInterrupt) x method x 3 models: outcome FAILED or the exception propagated, "
+             "warnings.showwarning and recursion limit restored, and z3 proves the next solve's recorded arguments equal to those of an untouched copy.",
+             COMMON_NOTE + "Assumes an exception raised by a callback propagates out of SciPy (validated with the real SciPy in the thorough tier).", "DESIGN.md 2/C20",
+             TECH + "; fault-injecting solver stubs"),
 }
 
 NOT_YET = {}
